@@ -506,6 +506,8 @@ theorem transposeIndexRule_sound : A.toOpSem.toSem.RuleSoundOn laws.WT transpose
       rename_i hflag
       split at hf
       · simp at hf
+      split at hf
+      · simp at hf
       rename_i hsh
       split at hf
       · rename_i shape axis hshape haxis
